@@ -1,12 +1,1440 @@
-//! C06 — monitor not built yet (stub so that the registry is complete).
+//! C06 — the string abstractions over-approximate the strings they describe.
+//!
+//! Monitor shape: reference model. The real `BricksDomain` / `BrickDomain` /
+//! `CharacterInclusionDomain` operations of `cwe_checker_lib` are executed on generated
+//! values; an independent *bounded concretisation* γ_N written from the documentation of
+//! the domains (never from the code of normalize/merge/widen) decides every execution:
+//!
+//! * brick `[S]^{min,max}` ↦ all concatenations of k ∈ [min,max] elements of S of length ≤ N
+//!   (`max = u32::MAX` is simply a very large k-range, i.e. unbounded), `Top` ↦ every string,
+//!   a brick list ↦ the concatenation of its bricks. N = 7 over the alphabet {a,b}; because
+//!   concatenation never shortens a string, cutting every intermediate language at N yields
+//!   *exactly* γ(x) ∩ Σ^{≤N}, so equality / inclusion of the cut languages is a sound test on
+//!   all strings of length ≤ N (no string of length ≤ N is lost or invented by the truncation).
+//! * `CharacterInclusionDomain (certain, possible)` ↦ {s | certain ⊆ chars(s) ⊆ possible},
+//!   judged on every string of length ≤ 4 over the letters of the drive plus one extra letter.
+//!
+//! Checks: γ_N(normalize(x)) = γ_N(x); γ_N(x)·γ_N(y) ⊆ γ_N(append(x,y));
+//! γ_N(x) ∪ γ_N(y) ⊆ γ_N(merge(x,y)) and ⊆ γ_N(widen(x,y)); the same for the brick-level
+//! merge/widen and for CI append/merge. Panics and non-termination of an operation on an
+//! in-domain input are violations too.
+//!
+//! Non-termination: every brick operation runs on a helper thread; the shard thread waits for
+//! the results and declares `bricks:<op>:nontermination` when the helper has burnt
+//! `HANG_CPU_MS` of CPU time (or `HANG_WALL_S` wall) on one call whose normal cost is
+//! microseconds. The stuck helper is left behind (the process exits at the end); after
+//! `HANG_CAP` stuck helpers the loop-capable operations (normalize, merge) are no longer fed
+//! and counted as inconclusive.
+
 use crate::core::*;
+use crate::prng::{hash_str, mix, Rng};
+use cwe_checker_lib::abstract_domain::{
+    AbstractDomain, BrickDomain, BricksDomain, CharacterInclusionDomain, CharacterSet, DomainInsertion,
+};
+use serde_json::{json, Value};
+use std::collections::BTreeSet;
+use std::sync::atomic::{AtomicBool, AtomicU64, AtomicUsize, Ordering};
+use std::sync::mpsc;
+use std::sync::Arc;
+use std::time::{Duration, Instant};
 
 pub fn info() -> CheckInfo {
     CheckInfo {
         id: "C06",
-        rule: "(monitor not built yet)",
-        assumptions: &[],
-        run: |_cfg| Report::new(),
-        replay: |_cfg, _case| Report::new(),
+        rule: "bounded concretisation gamma_N (N=7, alphabet {a,b}) of brick lists evaluated next to the real BricksDomain::{normalize, append_string_domain, merge, widen} and BrickDomain::{merge, widen}: gamma(normalize x) = gamma(x), gamma(x).gamma(y) <= gamma(append), gamma(x) u gamma(y) <= gamma(merge)/gamma(widen), restricted to strings of length <= 7; exhaustive over all 1- and 2-brick lists and all ordered brick pairs of the drive set (277 bricks: S <= {\"\",a,b,ab,ba}, 1<=|S|<=3, min<=max<=3 and (0,u32::MAX), Top, the padding brick []^(0,0)); thorough also all 3-brick lists over a reduced set of 101 bricks; sampled 3-brick lists (also with result-only bounds such as (1,MAX), (0,MAX-1), (2,6)), related pairs, longer lists and values reached through the public API only (from/append/merge rounds); CharacterInclusionDomain append/merge exhaustive over all (certain <= possible <= letters) values incl. possible=Top and Top, judged on all strings of length <= 4 (by their (character set, length) classes). non-trivial = the operation returned a value that is not Top (bricks: at least one non-Top brick; normalize: additionally output differs from input) and the input languages are neither empty nor everything; distinct = hash of (operation, operands)",
+        assumptions: &[
+            "gamma_N is computed by this module from the documented meaning of bricks ([S]^{min,max}, Top, list = concatenation) and of (certain, possible); max = u32::MAX is read as 'unbounded', which within N=7 equals any bound >= 8",
+            "input guard (bricks): min <= max; an empty string set only as the padding brick []^{0,0}; lists have at least one brick; only BricksDomain::Value is passed to normalize and widen and only BrickDomain::Value to BrickDomain::widen (they unwrap, merge checks Top before calling them)",
+            "input guard (cost): the product of |S_i|^min_i of a list to be normalized is <= 5000 and for merge (max|S_x|+max|S_y|)^min(sum min_x, sum min_y) <= 5000, so that a terminating call costs far less than the watchdog bound",
+            "input guard (CI): certain is never CharacterSet::Top and certain <= possible (what From<String>, append and merge produce)",
+            "non-termination verdict = no result after 1.5 s CPU time of the helper thread (20 s wall if /proc schedstat is unreadable) for a call whose terminating instances take < 10 ms; the smallest witness per signature is re-run with a 6 s CPU bound before it is reported",
+            "repetition bounds above N=7 (e.g. the interval threshold 8 of widen) are indistinguishable from 'unbounded' for strings of length <= 7",
+            "verdicts on the release profile",
+        ],
+        run,
+        replay,
     }
+}
+
+// ---------------------------------------------------------------------------
+// Bounded languages over {a,b}: lang[l] is a bit set over the 2^l strings of length l
+// (bit index = the string read as a binary number, a=0, b=1, first character most significant).
+
+const N: usize = 7;
+type Lang = [u128; N + 1];
+
+fn lang_all() -> Lang {
+    let mut l = [0u128; N + 1];
+    for (len, slot) in l.iter_mut().enumerate() {
+        let bits = 1u32 << len;
+        *slot = if bits == 128 { u128::MAX } else { (1u128 << bits) - 1 };
+    }
+    l
+}
+
+fn lang_eps() -> Lang {
+    let mut l = [0u128; N + 1];
+    l[0] = 1;
+    l
+}
+
+fn lang_empty() -> Lang {
+    [0u128; N + 1]
+}
+
+/// Encode a string over {a,b} of length ≤ N.
+fn encode(s: &str) -> Option<(usize, u32)> {
+    let mut bits = 0u32;
+    let mut len = 0usize;
+    for c in s.chars() {
+        let b = match c {
+            'a' => 0,
+            'b' => 1,
+            _ => return None,
+        };
+        bits = (bits << 1) | b;
+        len += 1;
+        if len > N {
+            return None;
+        }
+    }
+    Some((len, bits))
+}
+
+fn decode(len: usize, bits: u32) -> String {
+    (0..len).map(|i| if (bits >> (len - 1 - i)) & 1 == 1 { 'b' } else { 'a' }).collect()
+}
+
+/// Concatenation of two languages cut at N.
+fn lang_concat(a: &Lang, b: &Lang) -> Lang {
+    let mut out = [0u128; N + 1];
+    for la in 0..=N {
+        let mut m = a[la];
+        while m != 0 {
+            let ba = m.trailing_zeros();
+            m &= m - 1;
+            for lb in 0..=(N - la) {
+                let chunk = b[lb];
+                if chunk != 0 {
+                    out[la + lb] |= chunk << (ba << lb);
+                }
+            }
+        }
+    }
+    out
+}
+
+fn lang_union(a: &Lang, b: &Lang) -> Lang {
+    let mut out = *a;
+    for l in 0..=N {
+        out[l] |= b[l];
+    }
+    out
+}
+
+/// A string that is in `a` but not in `b`.
+fn lang_missing(a: &Lang, b: &Lang) -> Option<String> {
+    for l in 0..=N {
+        let d = a[l] & !b[l];
+        if d != 0 {
+            return Some(decode(l, d.trailing_zeros()));
+        }
+    }
+    None
+}
+
+fn lang_count(a: &Lang) -> u32 {
+    a.iter().map(|x| x.count_ones()).sum()
+}
+
+// ---------------------------------------------------------------------------
+// Model of the domain values (plain data owned by the harness)
+
+#[derive(Clone, Debug, PartialEq, Eq, Hash, PartialOrd, Ord)]
+enum MB {
+    Top,
+    B { seq: Vec<String>, min: u32, max: u32 },
+}
+
+#[derive(Clone, Debug, PartialEq, Eq, Hash, PartialOrd, Ord)]
+enum MBs {
+    Top,
+    V(Vec<MB>),
+}
+
+fn gamma_brick(b: &MB) -> Lang {
+    match b {
+        MB::Top => lang_all(),
+        MB::B { seq, min, max } => {
+            // the elements of S inside the universe; an element with foreign characters or longer than N
+            // cannot be part of any string of the universe
+            let mut s = lang_empty();
+            for e in seq {
+                if let Some((l, bits)) = encode(e) {
+                    s[l] |= 1u128 << bits;
+                }
+            }
+            let (min, max) = (*min as u64, *max as u64);
+            let mut acc = lang_empty();
+            let mut p = lang_eps(); // S^k
+            let mut k: u64 = 0;
+            loop {
+                if k >= min && k <= max {
+                    acc = lang_union(&acc, &p);
+                }
+                if k >= max {
+                    break;
+                }
+                let next = lang_concat(&p, &s);
+                if next == p {
+                    // S^j = S^k for all j >= k: some j >= k lies in [min,max] iff min <= max (k < max here)
+                    if min <= max {
+                        acc = lang_union(&acc, &p);
+                    }
+                    break;
+                }
+                p = next;
+                k += 1;
+            }
+            acc
+        }
+    }
+}
+
+fn gamma(x: &MBs) -> Lang {
+    match x {
+        MBs::Top => lang_all(),
+        MBs::V(list) => {
+            let mut l = lang_eps();
+            for b in list {
+                l = lang_concat(&l, &gamma_brick(b));
+            }
+            l
+        }
+    }
+}
+
+fn show_brick(b: &MB) -> String {
+    match b {
+        MB::Top => "[T]".to_string(),
+        MB::B { seq, min, max } => {
+            let m = if *max == u32::MAX { "MAX".to_string() } else if *max > u32::MAX - 64 { format!("MAX-{}", u32::MAX - *max) } else { max.to_string() };
+            format!("[{}]^({},{})", seq.iter().map(|s| format!("{s:?}")).collect::<Vec<_>>().join(","), min, m)
+        }
+    }
+}
+
+fn show(x: &MBs) -> String {
+    match x {
+        MBs::Top => "Top".to_string(),
+        MBs::V(l) if l.is_empty() => "<no bricks>".to_string(),
+        MBs::V(l) => l.iter().map(show_brick).collect::<Vec<_>>().join(" "),
+    }
+}
+
+fn size_brick(b: &MB) -> u64 {
+    match b {
+        MB::Top => 2,
+        MB::B { seq, min, max } => 2 + seq.iter().map(|s| 1 + s.len() as u64).sum::<u64>() + (*min).min(16) as u64 + if *max > 64 { 6 } else { *max as u64 },
+    }
+}
+
+fn size_of(x: &MBs) -> u64 {
+    match x {
+        MBs::Top => 1,
+        MBs::V(l) => l.iter().map(size_brick).sum::<u64>() + l.len() as u64,
+    }
+}
+
+// --- conversion to / from the real types (public constructors and setters only)
+
+fn real_brick(b: &MB) -> BrickDomain {
+    match b {
+        MB::Top => BrickDomain::Top,
+        MB::B { seq, min, max } => {
+            let mut d = BrickDomain::new(String::new());
+            if let BrickDomain::Value(ref mut brick) = d {
+                brick.set_sequence(seq.iter().cloned().collect::<BTreeSet<String>>());
+                brick.set_min(*min);
+                brick.set_max(*max);
+            }
+            d
+        }
+    }
+}
+
+fn real(x: &MBs) -> BricksDomain {
+    match x {
+        MBs::Top => BricksDomain::Top,
+        MBs::V(l) => BricksDomain::Value(l.iter().map(real_brick).collect()),
+    }
+}
+
+fn model_brick(b: &BrickDomain) -> MB {
+    match b {
+        BrickDomain::Top => MB::Top,
+        BrickDomain::Value(brick) => MB::B { seq: brick.get_sequence().iter().cloned().collect(), min: brick.get_min(), max: brick.get_max() },
+    }
+}
+
+fn model(x: &BricksDomain) -> MBs {
+    match x {
+        BricksDomain::Top => MBs::Top,
+        BricksDomain::Value(l) => MBs::V(l.iter().map(model_brick).collect()),
+    }
+}
+
+// ---------------------------------------------------------------------------
+// Cases
+
+#[derive(Clone, Copy, Debug, PartialEq, Eq, Hash)]
+enum Op {
+    Normalize,
+    Append,
+    Merge,
+    Widen,
+    BrickMerge,
+    BrickWiden,
+}
+
+impl Op {
+    fn name(self) -> &'static str {
+        match self {
+            Op::Normalize => "normalize",
+            Op::Append => "append",
+            Op::Merge => "merge",
+            Op::Widen => "widen",
+            Op::BrickMerge => "brick-merge",
+            Op::BrickWiden => "brick-widen",
+        }
+    }
+    fn parse(s: &str) -> Option<Op> {
+        [Op::Normalize, Op::Append, Op::Merge, Op::Widen, Op::BrickMerge, Op::BrickWiden].into_iter().find(|o| o.name() == s)
+    }
+    /// Operations that contain a fixpoint loop.
+    fn can_loop(self) -> bool {
+        matches!(self, Op::Normalize | Op::Merge)
+    }
+}
+
+/// One execution of one operation. Brick-level operations carry one-brick lists.
+#[derive(Clone, Debug)]
+struct Case {
+    op: Op,
+    x: MBs,
+    y: Option<MBs>,
+    /// how the operands came about (for the histogram / the witness text)
+    origin: &'static str,
+}
+
+impl Case {
+    fn json(&self) -> Value {
+        let y = match (&self.y, self.op) {
+            (Some(y), Op::BrickMerge | Op::BrickWiden) => json!(real_brick(first_brick(y))),
+            (Some(y), _) => json!(real(y)),
+            (None, _) => Value::Null,
+        };
+        let x = match self.op {
+            Op::BrickMerge | Op::BrickWiden => json!(real_brick(first_brick(&self.x))),
+            _ => json!(real(&self.x)),
+        };
+        json!({"kind": self.op.name(), "x": x, "y": y, "origin": self.origin, "shown": format!("x = {} ; y = {}", show(&self.x), self.y.as_ref().map(show).unwrap_or_default())})
+    }
+    fn fp(&self) -> u64 {
+        mix(hash_str(self.op.name()), hash_str(&format!("{:?}|{:?}", self.x, self.y)))
+    }
+    fn size(&self) -> u64 {
+        size_of(&self.x) + self.y.as_ref().map(size_of).unwrap_or(0)
+    }
+}
+
+fn first_brick(x: &MBs) -> &MB {
+    match x {
+        MBs::V(l) if !l.is_empty() => &l[0],
+        _ => &MB::Top,
+    }
+}
+
+/// Is the case inside the input domain the implementation legitimately assumes?
+fn in_domain(c: &Case) -> bool {
+    fn wf(x: &MBs) -> bool {
+        match x {
+            MBs::Top => true,
+            MBs::V(l) => {
+                !l.is_empty()
+                    && l.iter().all(|b| match b {
+                        MB::Top => true,
+                        MB::B { seq, min, max } => min <= max && (!seq.is_empty() || (*min == 0 && *max == 0)),
+                    })
+            }
+        }
+    }
+    if !wf(&c.x) || !c.y.as_ref().map(wf).unwrap_or(true) {
+        return false;
+    }
+    let is_val = |x: &MBs| matches!(x, MBs::V(_));
+    match c.op {
+        Op::Normalize => is_val(&c.x) && c.y.is_none() && expansion(&c.x) <= COST_CAP,
+        Op::Widen => is_val(&c.x) && c.y.as_ref().map(is_val).unwrap_or(false),
+        Op::Merge => match &c.y {
+            Some(y) => merge_cost(&c.x, y) <= COST_CAP,
+            None => false,
+        },
+        Op::Append => c.y.is_some(),
+        Op::BrickMerge => c.y.is_some() && is_val(&c.x) && c.y.as_ref().map(is_val).unwrap_or(false),
+        Op::BrickWiden => match (&c.x, &c.y) {
+            (MBs::V(_), Some(MBs::V(_))) => *first_brick(&c.x) != MB::Top && *first_brick(c.y.as_ref().unwrap()) != MB::Top,
+            _ => false,
+        },
+    }
+}
+
+const COST_CAP: f64 = 5000.0;
+
+/// Upper bound on the number of strings normalisation may have to build: Π |S_i|^min_i.
+fn expansion(x: &MBs) -> f64 {
+    match x {
+        MBs::Top => 1.0,
+        MBs::V(l) => l
+            .iter()
+            .map(|b| match b {
+                MB::Top => 1.0,
+                MB::B { seq, min, .. } => (seq.len().max(1) as f64).powi((*min).min(64) as i32),
+            })
+            .product(),
+    }
+}
+
+fn sum_min(x: &MBs) -> u32 {
+    match x {
+        MBs::Top => 0,
+        MBs::V(l) => l.iter().map(|b| if let MB::B { min, .. } = b { (*min).min(64) } else { 0 }).sum(),
+    }
+}
+
+fn max_set(x: &MBs) -> usize {
+    match x {
+        MBs::Top => 0,
+        MBs::V(l) => l.iter().map(|b| if let MB::B { seq, .. } = b { seq.len() } else { 0 }).max().unwrap_or(0),
+    }
+}
+
+fn merge_cost(x: &MBs, y: &MBs) -> f64 {
+    let u = (max_set(x) + max_set(y)).max(1) as f64;
+    u.powi(sum_min(x).min(sum_min(y)) as i32)
+}
+
+// ---------------------------------------------------------------------------
+// Execution of the code under test on a helper thread with a watchdog
+
+#[derive(Clone)]
+struct Job {
+    op: Op,
+    x: BricksDomain,
+    y: Option<BricksDomain>,
+}
+
+#[derive(Clone, Debug)]
+enum Out {
+    Bricks(BricksDomain),
+    Brick(BrickDomain),
+    Panic(String),
+    Hang(String),
+    Skipped,
+}
+
+const HANG_CPU_MS: u64 = 1500;
+const HANG_WALL_S: u64 = 20;
+const HANG_CAP: usize = 3;
+
+static STUCK_THREADS: AtomicUsize = AtomicUsize::new(0);
+static MAX_CALL_US: AtomicU64 = AtomicU64::new(0);
+static SLOWEST: std::sync::Mutex<(u64, String)> = std::sync::Mutex::new((0, String::new()));
+
+fn one_brick(x: &BricksDomain) -> BrickDomain {
+    match x {
+        BricksDomain::Value(l) if !l.is_empty() => l[0].clone(),
+        _ => BrickDomain::Top,
+    }
+}
+
+/// The only place where the code under test is called for the brick domains.
+fn exec_job(j: &Job) -> Out {
+    let t = Instant::now();
+    let r = match j.op {
+        Op::Normalize => guard(|| j.x.normalize()).map(Out::Bricks),
+        Op::Append => guard(|| j.x.append_string_domain(j.y.as_ref().unwrap())).map(Out::Bricks),
+        Op::Merge => guard(|| j.x.merge(j.y.as_ref().unwrap())).map(Out::Bricks),
+        Op::Widen => guard(|| j.x.widen(j.y.as_ref().unwrap())).map(Out::Bricks),
+        Op::BrickMerge => {
+            let (a, b) = (one_brick(&j.x), one_brick(j.y.as_ref().unwrap()));
+            guard(|| a.merge(&b)).map(Out::Brick)
+        }
+        Op::BrickWiden => {
+            let (a, b) = (one_brick(&j.x), one_brick(j.y.as_ref().unwrap()));
+            guard(|| a.widen(&b)).map(Out::Brick)
+        }
+    };
+    let us = t.elapsed().as_micros() as u64;
+    if us > MAX_CALL_US.fetch_max(us, Ordering::Relaxed) && us > 2000 {
+        if let Ok(mut g) = SLOWEST.lock() {
+            if us > g.0 {
+                *g = (us, format!("{}({} ; {})", j.op.name(), show(&model(&j.x)), j.y.as_ref().map(|y| show(&model(y))).unwrap_or_default()));
+            }
+        }
+    }
+    match r {
+        Ok(o) => o,
+        Err(p) => Out::Panic(p),
+    }
+}
+
+/// CPU time (ns) consumed so far by thread `tid` of this process.
+fn thread_cpu_ns(tid: u64) -> Option<u64> {
+    let s = std::fs::read_to_string(format!("/proc/self/task/{tid}/schedstat")).ok()?;
+    s.split_whitespace().next()?.parse::<u64>().ok()
+}
+
+fn own_tid() -> Option<u64> {
+    let l = std::fs::read_link("/proc/thread-self").ok()?;
+    l.file_name()?.to_str()?.parse::<u64>().ok()
+}
+
+enum Msg {
+    Tid(Option<u64>),
+    Done,
+}
+
+struct Shared {
+    jobs: Vec<Job>,
+    outs: std::sync::Mutex<Vec<Option<Out>>>,
+    /// index of the job the helper is working on
+    progress: AtomicUsize,
+}
+
+/// Run all jobs (in order) on a helper thread; a call that does not come back is reported as `Out::Hang`,
+/// its thread is abandoned and a new helper continues behind it.
+fn exec_batch(jobs: Vec<Job>, cpu_limit_ms: u64, force_loops: bool) -> Vec<Out> {
+    let n = jobs.len();
+    let shared = Arc::new(Shared { jobs, outs: std::sync::Mutex::new(vec![None; n]), progress: AtomicUsize::new(0) });
+    let mut next = 0usize;
+    install_quiet_panic_hook();
+    while next < n {
+        // once too many helpers are stuck, loop-capable operations are no longer fed
+        let skip_loops = !force_loops && STUCK_THREADS.load(Ordering::SeqCst) >= HANG_CAP;
+        let abandon = Arc::new(AtomicBool::new(false));
+        let (tx, rx) = mpsc::channel::<Msg>();
+        let (sh, ab, start) = (shared.clone(), abandon.clone(), next);
+        shared.progress.store(start, Ordering::SeqCst);
+        let spawned = std::thread::Builder::new().name("c06-helper".into()).spawn(move || {
+            let _ = tx.send(Msg::Tid(own_tid()));
+            for i in start..sh.jobs.len() {
+                if ab.load(Ordering::SeqCst) {
+                    return;
+                }
+                sh.progress.store(i, Ordering::SeqCst);
+                let out = if skip_loops && sh.jobs[i].op.can_loop() { Out::Skipped } else { exec_job(&sh.jobs[i]) };
+                let mut g = sh.outs.lock().unwrap();
+                if g[i].is_none() {
+                    g[i] = Some(out);
+                }
+            }
+            let _ = tx.send(Msg::Done);
+        });
+        if spawned.is_err() {
+            break;
+        }
+        let mut tid: Option<u64> = None;
+        let mut baseline: Option<u64> = None;
+        let mut last_p = usize::MAX;
+        let mut last_progress = Instant::now();
+        loop {
+            match rx.recv_timeout(Duration::from_millis(100)) {
+                Ok(Msg::Tid(t)) => tid = t,
+                Ok(Msg::Done) => {
+                    next = n;
+                    break;
+                }
+                Err(mpsc::RecvTimeoutError::Timeout) => {
+                    let p = shared.progress.load(Ordering::SeqCst);
+                    if p != last_p {
+                        last_p = p;
+                        baseline = None;
+                        last_progress = Instant::now();
+                        continue;
+                    }
+                    // still the same call as at the previous poll
+                    let cpu = tid.and_then(thread_cpu_ns);
+                    let wall = last_progress.elapsed();
+                    let verdict = match (baseline, cpu) {
+                        (None, Some(c)) => {
+                            baseline = Some(c);
+                            None
+                        }
+                        (Some(b), Some(c)) if c.saturating_sub(b) >= cpu_limit_ms * 1_000_000 => {
+                            Some(Out::Hang(format!("no result after {} ms of CPU time on the helper thread", c.saturating_sub(b) / 1_000_000)))
+                        }
+                        (_, None) if wall.as_secs() >= HANG_WALL_S => Some(Out::Hang(format!("no result after {} s (wall)", wall.as_secs()))),
+                        // a helper that gets (almost) no CPU for a very long time: give up on the call without a verdict
+                        _ if wall.as_secs() >= 20 * HANG_WALL_S => Some(Out::Skipped),
+                        _ => None,
+                    };
+                    if let Some(v) = verdict {
+                        abandon.store(true, Ordering::SeqCst);
+                        let mut g = shared.outs.lock().unwrap();
+                        if g[p].is_none() {
+                            g[p] = Some(v);
+                            STUCK_THREADS.fetch_add(1, Ordering::SeqCst);
+                        }
+                        next = p + 1;
+                        break;
+                    }
+                }
+                Err(mpsc::RecvTimeoutError::Disconnected) => {
+                    // the helper ended without Done: it died outside a guarded call
+                    let p = shared.progress.load(Ordering::SeqCst);
+                    let mut g = shared.outs.lock().unwrap();
+                    if g[p].is_none() {
+                        g[p] = Some(Out::Panic("helper thread terminated without a result".into()));
+                    }
+                    next = p + 1;
+                    break;
+                }
+            }
+        }
+    }
+    let g = shared.outs.lock().unwrap();
+    g.iter().map(|o| o.clone().unwrap_or(Out::Skipped)).collect()
+}
+
+fn job_of(c: &Case) -> Job {
+    Job { op: c.op, x: real(&c.x), y: c.y.as_ref().map(real) }
+}
+
+// ---------------------------------------------------------------------------
+// Oracle
+
+fn trivial_lang(l: &Lang) -> bool {
+    let c = lang_count(l);
+    c == 0 || c == 255
+}
+
+fn has_value_brick(x: &MBs) -> bool {
+    matches!(x, MBs::V(l) if l.iter().any(|b| *b != MB::Top))
+}
+
+/// Judge one executed case. Returns the result value (for chaining) if there is one.
+fn judge(c: &Case, out: &Out, rep: &mut Report, track: bool) -> Option<MBs> {
+    let op = c.op.name();
+    let sig = |what: &str| format!("bricks:{op}:{what}");
+    let call = || match &c.y {
+        Some(y) => format!("{op}({} ; {})", show(&c.x), show(y)),
+        None => format!("{op}({})", show(&c.x)),
+    };
+    let result: MBs = match out {
+        Out::Skipped => {
+            rep.inconclusive("bricks: loop-capable operation not executed (too many stuck helper threads)");
+            return None;
+        }
+        Out::Panic(p) => {
+            rep.eval();
+            rep.violation(sig(&format!("panic:{}", panic_site(p))), None, format!("{} panicked: {p}; expected a value describing at least the strings required by the property", call()), c.json(), c.size());
+            return None;
+        }
+        Out::Hang(h) => {
+            rep.eval();
+            rep.obs(&format!("{op}:nontermination"));
+            rep.violation(sig("nontermination"), None, format!("{} did not return: {h} (terminating calls of this run take at most a few ms); expected a result", call()), c.json(), c.size());
+            return None;
+        }
+        Out::Bricks(b) => model(b),
+        Out::Brick(b) => MBs::V(vec![model_brick(b)]),
+    };
+    rep.eval();
+    let gx = gamma(&c.x);
+    let gr = gamma(&result);
+    let mut nontrivial = has_value_brick(&result) && !trivial_lang(&gx);
+    match c.op {
+        Op::Normalize => {
+            if let Some(s) = lang_missing(&gx, &gr) {
+                rep.violation(sig("member-lost"), None, format!("{} = {} : the string {s:?} is represented by the input but not by the result (strings of length <= {N}: {} before, {} after)", call(), show(&result), lang_count(&gx), lang_count(&gr)), c.json(), c.size());
+            } else if let Some(s) = lang_missing(&gr, &gx) {
+                rep.violation(sig("member-added"), None, format!("{} = {} : the string {s:?} is represented by the result but not by the input (strings of length <= {N}: {} before, {} after)", call(), show(&result), lang_count(&gx), lang_count(&gr)), c.json(), c.size());
+            }
+            nontrivial = nontrivial && result != c.x;
+            if track {
+                rep.obs(if result != c.x { "normalize:changed" } else { "normalize:already-normal" });
+            }
+        }
+        Op::Append => {
+            let gy = gamma(c.y.as_ref().unwrap());
+            let need = lang_concat(&gx, &gy);
+            if let Some(s) = lang_missing(&need, &gr) {
+                rep.violation(sig("concatenation-lost"), None, format!("{} = {} : {s:?} is a concatenation of members of the operands but is not represented by the result", call(), show(&result)), c.json(), c.size());
+            }
+            nontrivial = nontrivial && !trivial_lang(&gy);
+        }
+        Op::Merge | Op::Widen | Op::BrickMerge | Op::BrickWiden => {
+            let gy = gamma(c.y.as_ref().unwrap());
+            for (which, g) in [("first", &gx), ("second", &gy)] {
+                if let Some(s) = lang_missing(g, &gr) {
+                    rep.violation(sig("member-lost"), None, format!("{} = {} : {s:?} is represented by the {which} operand but not by the result", call(), show(&result)), c.json(), c.size());
+                    break;
+                }
+            }
+            nontrivial = nontrivial && !trivial_lang(&gy) && c.y.as_ref() != Some(&c.x);
+            if track {
+                rep.obs(&format!("{op}:{}", if has_value_brick(&result) { "value" } else { "top" }));
+            }
+        }
+    }
+    if nontrivial {
+        rep.nontrivial(c.fp());
+    }
+    if track {
+        rep.obs(&format!("op:{op}:{}", c.origin));
+        if let MBs::V(l) = &c.x {
+            rep.obs(&format!("x-bricks:{}", l.len().min(9)));
+            if l.iter().any(|b| matches!(b, MB::B { max, .. } if *max > u32::MAX - 64)) {
+                rep.obs("x-has-unbounded-brick");
+            }
+            if l.contains(&MB::Top) {
+                rep.obs("x-has-top-brick");
+            }
+        } else {
+            rep.obs("x-is-top");
+        }
+    }
+    Some(result)
+}
+
+/// Execute and judge a list of cases (cases outside the input domain are dropped).
+fn run_cases(cases: Vec<Case>, rep: &mut Report, track: bool, sample: bool) -> Vec<(Case, Option<MBs>)> {
+    let cases: Vec<Case> = cases
+        .into_iter()
+        .filter(|c| {
+            let ok = in_domain(c);
+            if !ok && track {
+                rep.obs("dropped:outside-input-domain");
+            }
+            ok
+        })
+        .collect();
+    let outs = exec_batch(cases.iter().map(job_of).collect(), HANG_CPU_MS, false);
+    let mut res = Vec::with_capacity(cases.len());
+    for (c, o) in cases.into_iter().zip(outs.iter()) {
+        let r = judge(&c, o, rep, track);
+        if sample && rep.wants_sample() {
+            let gx = gamma(&c.x);
+            rep.sample(json!({"op": c.op.name(), "x": show(&c.x), "y": c.y.as_ref().map(show), "observed_result": r.as_ref().map(show),
+                "strings_up_to_len7_in_x": lang_count(&gx), "strings_up_to_len7_in_y": c.y.as_ref().map(|y| lang_count(&gamma(y))),
+                "strings_up_to_len7_in_result": r.as_ref().map(|r| lang_count(&gamma(r))),
+                "verdict": if rep.violations.is_empty() { "holds" } else { "violated" }}));
+        }
+        res.push((c, r));
+    }
+    res
+}
+
+// ---------------------------------------------------------------------------
+// Generators
+
+const ELEMS: [&str; 5] = ["", "a", "b", "ab", "ba"];
+const BASE_BOUNDS: [(u32, u32); 11] = [(0, 0), (0, 1), (0, 2), (0, 3), (1, 1), (1, 2), (1, 3), (2, 2), (2, 3), (3, 3), (0, u32::MAX)];
+/// bounds that only arise as results (sums of bounds, saturated sums, remainders of the unbounded form, hulls)
+const EXTRA_BOUNDS: [(u32, u32); 12] =
+    [(1, u32::MAX), (2, u32::MAX), (0, u32::MAX - 1), (0, u32::MAX - 2), (0, 4), (0, 6), (1, 4), (2, 5), (2, 6), (4, 4), (0, 10), (1, 12)];
+
+/// All subsets of ELEMS with 1..=max_size elements (sorted element order as in a BTreeSet).
+fn all_sets(max_size: usize) -> Vec<Vec<String>> {
+    let mut v = Vec::new();
+    for mask in 1u32..(1 << ELEMS.len()) {
+        if mask.count_ones() as usize <= max_size {
+            let mut s: Vec<String> = (0..ELEMS.len()).filter(|i| mask >> i & 1 == 1).map(|i| ELEMS[i].to_string()).collect();
+            s.sort();
+            v.push(s);
+        }
+    }
+    v
+}
+
+/// The drive set of bricks: Top, the padding brick, S x bounds.
+fn all_bricks(reduced: bool) -> Vec<MB> {
+    let mut v = vec![MB::Top, MB::B { seq: vec![], min: 0, max: 0 }];
+    let sets: Vec<Vec<String>> = if reduced {
+        [vec![""], vec!["a"], vec!["b"], vec!["ab"], vec!["a", "b"], vec!["", "a"], vec!["a", "ab"], vec!["ab", "ba"], vec!["a", "ab", "b"]]
+            .iter()
+            .map(|s| s.iter().map(|e| e.to_string()).collect())
+            .collect()
+    } else {
+        all_sets(3)
+    };
+    for s in sets {
+        for (min, max) in BASE_BOUNDS {
+            v.push(MB::B { seq: s.clone(), min, max });
+        }
+    }
+    v
+}
+
+fn random_set(rng: &mut Rng) -> Vec<String> {
+    let size = match rng.below(10) {
+        0..=3 => 1,
+        4..=7 => 2,
+        _ => 3,
+    };
+    let mut idx: Vec<usize> = (0..ELEMS.len()).collect();
+    rng.shuffle(&mut idx);
+    let mut s: Vec<String> = idx[..size].iter().map(|i| ELEMS[*i].to_string()).collect();
+    s.sort();
+    s
+}
+
+fn random_bounds(rng: &mut Rng) -> (u32, u32) {
+    if rng.chance(1, 7) {
+        *rng.pick(&EXTRA_BOUNDS)
+    } else {
+        *rng.pick(&BASE_BOUNDS)
+    }
+}
+
+fn random_brick(rng: &mut Rng, prev: Option<&MB>) -> MB {
+    match rng.below(24) {
+        0 | 1 => return MB::Top,
+        2 => return MB::B { seq: vec![], min: 0, max: 0 },
+        _ => (),
+    }
+    // equal neighbouring sets (rule 4) and runs of (1,1) bricks (rule 2) are the interesting shapes
+    let seq = match prev {
+        Some(MB::B { seq, .. }) if !seq.is_empty() && rng.chance(2, 5) => seq.clone(),
+        _ => random_set(rng),
+    };
+    let (min, max) = if rng.chance(1, 5) { (1, 1) } else { random_bounds(rng) };
+    MB::B { seq, min, max }
+}
+
+fn random_list(rng: &mut Rng, max_len: usize) -> MBs {
+    let len = 1 + (rng.below(8) as usize * max_len / 6).min(max_len - 1);
+    let mut l: Vec<MB> = Vec::new();
+    for _ in 0..len {
+        let b = random_brick(rng, l.last());
+        l.push(b);
+    }
+    MBs::V(l)
+}
+
+/// A brick that describes at least what `b` describes (often strictly more).
+fn enlarge(rng: &mut Rng, b: &MB) -> MB {
+    match b {
+        MB::Top => MB::Top,
+        MB::B { seq, min, max } => {
+            if rng.chance(1, 12) {
+                return MB::Top;
+            }
+            let mut s: BTreeSet<String> = seq.iter().cloned().collect();
+            if rng.bool() {
+                s.insert(rng.pick(&ELEMS).to_string());
+            }
+            let nmin = if rng.bool() { *min } else { rng.below(*min as u64 + 1) as u32 };
+            let nmax = match rng.below(4) {
+                0 => max.saturating_add(rng.below(3) as u32),
+                1 if rng.chance(1, 3) => u32::MAX,
+                _ => *max,
+            };
+            let (nmin, nmax) = if s.is_empty() { (0, 0) } else { (nmin.min(nmax), nmax) };
+            MB::B { seq: s.into_iter().collect(), min: nmin, max: nmax }
+        }
+    }
+}
+
+/// A list related to `x` (so that merge/widen do not trivially answer Top).
+fn related(rng: &mut Rng, x: &MBs) -> MBs {
+    let l = match x {
+        MBs::Top => return random_list(rng, 3),
+        MBs::V(l) => l,
+    };
+    let mut out: Vec<MB> = Vec::new();
+    let mode = rng.below(6);
+    for b in l {
+        match mode {
+            0 => {
+                // drop bricks
+                if !rng.chance(1, 3) {
+                    out.push(b.clone());
+                }
+            }
+            1 => out.push(enlarge(rng, b)),
+            2 => {
+                // insert bricks
+                if rng.chance(1, 3) {
+                    let nb = random_brick(rng, Some(b));
+                    out.push(nb);
+                }
+                out.push(b.clone());
+            }
+            3 => {
+                // drop and enlarge
+                if !rng.chance(1, 3) {
+                    out.push(if rng.bool() { enlarge(rng, b) } else { b.clone() });
+                }
+            }
+            4 => {
+                // change only the bounds
+                out.push(match b {
+                    MB::B { seq, .. } if !seq.is_empty() => {
+                        let (min, max) = random_bounds(rng);
+                        MB::B { seq: seq.clone(), min, max }
+                    }
+                    other => other.clone(),
+                });
+            }
+            _ => out.push(b.clone()),
+        }
+    }
+    if mode == 5 {
+        let nb = random_brick(rng, out.last());
+        if rng.bool() {
+            out.push(nb);
+        } else {
+            out.insert(0, nb);
+        }
+    }
+    if out.is_empty() {
+        out.push(l[rng.usize_below(l.len())].clone());
+    }
+    MBs::V(out)
+}
+
+fn concat_lists(x: &MBs, y: &MBs) -> Option<MBs> {
+    match (x, y) {
+        (MBs::V(a), MBs::V(b)) => Some(MBs::V(a.iter().chain(b.iter()).cloned().collect())),
+        _ => None,
+    }
+}
+
+/// All checks for an ordered pair of lists.
+fn pair_cases(x: &MBs, y: &MBs, origin: &'static str, with_normalize: bool) -> Vec<Case> {
+    let mut v = vec![
+        Case { op: Op::Append, x: x.clone(), y: Some(y.clone()), origin },
+        Case { op: Op::Merge, x: x.clone(), y: Some(y.clone()), origin },
+        Case { op: Op::Widen, x: x.clone(), y: Some(y.clone()), origin },
+    ];
+    if with_normalize {
+        v.push(Case { op: Op::Normalize, x: x.clone(), y: None, origin });
+        if let Some(xy) = concat_lists(x, y) {
+            v.push(Case { op: Op::Normalize, x: xy, y: None, origin: "concatenated" });
+        }
+    }
+    v
+}
+
+#[derive(Clone, Debug)]
+enum Task {
+    /// normalize all 1-brick lists, then all 2-brick lists whose first brick has index in the range
+    EnumLists { reduced: bool, first: bool, lo: usize, hi: usize },
+    /// normalize all 3-brick lists over the reduced drive set whose first brick has index in the range
+    EnumLists3 { lo: usize, hi: usize },
+    /// brick-level merge/widen for all brick pairs with the first brick in the range, and the list-level
+    /// operations on the corresponding 1-brick lists
+    EnumBrickPairs { reduced: bool, lo: usize, hi: usize },
+    /// random 3-brick lists (normalize) and random / related pairs (append, merge, widen)
+    Sample { n: usize },
+    /// longer lists (up to 8 bricks, sometimes beyond the length threshold of widen)
+    Long { n: usize },
+    /// values obtained through the public API only: from(String), Top, append, merge
+    Api { rounds: usize, per_round: usize },
+    /// CharacterInclusionDomain, exhaustive
+    Ci { letters: usize, lo: usize, hi: usize },
+}
+
+fn run_task(task: &Task, rng: &mut Rng, rep: &mut Report) {
+    match task {
+        Task::EnumLists { reduced, first, lo, hi } => {
+            let bricks = all_bricks(*reduced);
+            let mut cases = Vec::new();
+            if *first {
+                for b in &bricks {
+                    cases.push(Case { op: Op::Normalize, x: MBs::V(vec![b.clone()]), y: None, origin: "enumerated" });
+                }
+            }
+            for a in &bricks[*lo..(*hi).min(bricks.len())] {
+                for b in &bricks {
+                    cases.push(Case { op: Op::Normalize, x: MBs::V(vec![a.clone(), b.clone()]), y: None, origin: "enumerated" });
+                }
+            }
+            run_cases(cases, rep, true, false);
+            if *first {
+                rep.exhaustive_parts.push(format!("normalize on all lists of 1 and 2 bricks over the {} drive set ({} bricks)", if *reduced { "reduced" } else { "full" }, bricks.len()));
+            }
+        }
+        Task::EnumLists3 { lo, hi } => {
+            let bricks = all_bricks(true);
+            for a in &bricks[*lo..(*hi).min(bricks.len())] {
+                let mut cases = Vec::new();
+                for b in &bricks {
+                    for c in &bricks {
+                        cases.push(Case { op: Op::Normalize, x: MBs::V(vec![a.clone(), b.clone(), c.clone()]), y: None, origin: "enumerated-3" });
+                    }
+                }
+                run_cases(cases, rep, true, false);
+            }
+            if *lo == 0 {
+                rep.exhaustive_parts.push(format!("normalize on all lists of 3 bricks over the reduced drive set ({} bricks)", bricks.len()));
+            }
+        }
+        Task::EnumBrickPairs { reduced, lo, hi } => {
+            let bricks = all_bricks(*reduced);
+            let mut cases = Vec::new();
+            for a in &bricks[*lo..(*hi).min(bricks.len())] {
+                for b in &bricks {
+                    let (x, y) = (MBs::V(vec![a.clone()]), MBs::V(vec![b.clone()]));
+                    cases.push(Case { op: Op::BrickMerge, x: x.clone(), y: Some(y.clone()), origin: "enumerated" });
+                    cases.push(Case { op: Op::BrickWiden, x: x.clone(), y: Some(y.clone()), origin: "enumerated" });
+                    cases.push(Case { op: Op::Merge, x: x.clone(), y: Some(y.clone()), origin: "enumerated" });
+                    cases.push(Case { op: Op::Widen, x: x.clone(), y: Some(y.clone()), origin: "enumerated" });
+                    cases.push(Case { op: Op::Append, x, y: Some(y), origin: "enumerated" });
+                }
+            }
+            run_cases(cases, rep, true, false);
+            if *lo == 0 {
+                rep.exhaustive_parts.push(format!("brick-level merge/widen and list-level merge/widen/append on all ordered pairs of the {} drive set ({} bricks)", if *reduced { "reduced" } else { "full" }, bricks.len()));
+            }
+        }
+        Task::Sample { n } => {
+            let tops = [MBs::Top];
+            let mut cases = Vec::new();
+            for i in 0..*n {
+                let x = random_list(rng, 3);
+                let y = match rng.below(8) {
+                    0 | 1 => random_list(rng, 3),
+                    2 => x.clone(),
+                    _ => related(rng, &x),
+                };
+                let (x, y) = if rng.bool() { (x, y) } else { (y, x) };
+                cases.extend(pair_cases(&x, &y, "sampled", true));
+                if i % 16 == 0 {
+                    // Top operands
+                    let t = rng.pick(&tops).clone();
+                    cases.push(Case { op: Op::Append, x: t.clone(), y: Some(y.clone()), origin: "top-operand" });
+                    cases.push(Case { op: Op::Append, x: x.clone(), y: Some(t.clone()), origin: "top-operand" });
+                    cases.push(Case { op: Op::Merge, x: t.clone(), y: Some(y.clone()), origin: "top-operand" });
+                    cases.push(Case { op: Op::Merge, x: x.clone(), y: Some(t.clone()), origin: "top-operand" });
+                    cases.push(Case { op: Op::Append, x: t.clone(), y: Some(t), origin: "top-operand" });
+                }
+            }
+            let res = run_cases(cases, rep, true, false);
+            // second generation: results fed back into the operations
+            let pool: Vec<MBs> = res.iter().filter_map(|(_, r)| r.clone()).filter(has_value_brick).collect();
+            if !pool.is_empty() {
+                let mut cases = Vec::new();
+                for _ in 0..(*n / 2) {
+                    let x = rng.pick(&pool).clone();
+                    let y = if rng.bool() { rng.pick(&pool).clone() } else { related(rng, &x) };
+                    cases.extend(pair_cases(&x, &y, "fed-back-result", true));
+                }
+                run_cases(cases, rep, true, false);
+            }
+        }
+        Task::Long { n } => {
+            let mut cases = Vec::new();
+            for i in 0..*n {
+                let x = if i % 8 == 0 {
+                    // beyond the length threshold (32) of widen: many optional one-letter bricks
+                    let len = 30 + rng.below(6) as usize;
+                    MBs::V((0..len).map(|_| MB::B { seq: vec![rng.pick(&["a", "b", ""]).to_string()], min: 0, max: 1 }).collect())
+                } else {
+                    random_list(rng, 8)
+                };
+                let y = if rng.chance(1, 4) { random_list(rng, 8) } else { related(rng, &x) };
+                let (x, y) = if rng.bool() { (x, y) } else { (y, x) };
+                cases.extend(pair_cases(&x, &y, "long-list", true));
+            }
+            run_cases(cases, rep, true, false);
+        }
+        Task::Api { rounds, per_round } => {
+            let words = ["", "a", "b", "ab", "ba", "aa", "aba", "bb"];
+            let mut pool: Vec<MBs> = vec![MBs::Top];
+            for w in words {
+                pool.push(model(&BricksDomain::from(w.to_string())));
+            }
+            for _ in 0..*rounds {
+                let mut cases = Vec::new();
+                for _ in 0..*per_round {
+                    let x = rng.pick(&pool).clone();
+                    // merge only answers something else than Top for lists that agree position-wise: build such partners
+                    let y = if rng.chance(1, 3) {
+                        rng.pick(&pool).clone()
+                    } else {
+                        match &x {
+                            MBs::V(l) if l.len() > 1 => {
+                                let keep: Vec<MB> = l.iter().filter(|_| rng.chance(2, 3)).cloned().collect();
+                                if keep.is_empty() { rng.pick(&pool).clone() } else { MBs::V(keep) }
+                            }
+                            _ => rng.pick(&pool).clone(),
+                        }
+                    };
+                    // sub-lists of API values are API values only if built by append: restrict to that case
+                    let y_is_api = pool.contains(&y) || matches!(&y, MBs::V(l) if l.iter().all(|b| matches!(b, MB::B{min:1,max:1,seq} if seq.len()==1)));
+                    if !y_is_api {
+                        continue;
+                    }
+                    let (x, y) = if rng.bool() { (x, y) } else { (y, x) };
+                    let op = if rng.chance(2, 5) { Op::Append } else { Op::Merge };
+                    cases.push(Case { op, x: x.clone(), y: Some(y.clone()), origin: "public-api" });
+                    if op == Op::Merge {
+                        if let (MBs::V(_), MBs::V(_)) = (&x, &y) {
+                            cases.push(Case { op: Op::Widen, x, y: Some(y), origin: "public-api" });
+                        }
+                    }
+                }
+                let res = run_cases(cases, rep, true, false);
+                for (c, r) in res {
+                    if let Some(r) = r {
+                        if c.op != Op::Widen && size_of(&r) <= 60 && !pool.contains(&r) {
+                            pool.push(r);
+                        }
+                    }
+                }
+            }
+            // normalize is public as well: apply it to every value reached
+            let cases = pool.iter().filter(|p| matches!(p, MBs::V(_))).map(|p| Case { op: Op::Normalize, x: p.clone(), y: None, origin: "public-api" }).collect();
+            run_cases(cases, rep, true, false);
+        }
+        Task::Ci { letters, lo, hi } => ci_task(*letters, *lo, *hi, rep),
+    }
+}
+
+// ---------------------------------------------------------------------------
+// Character inclusion domain
+
+/// Model: `certain` = bit mask over the letters a.. (None = not representable in the universe, i.e. no string
+/// of the universe is described), `possible` = mask or None for Top.
+#[derive(Clone, Copy, Debug, PartialEq, Eq)]
+enum MCi {
+    Top,
+    V { certain: Option<u8>, possible: Option<u8> },
+}
+
+fn letter(i: usize) -> char {
+    (b'a' + i as u8) as char
+}
+
+fn ci_real(v: &MCi) -> CharacterInclusionDomain {
+    let set = |m: u8| CharacterSet::Value((0..8).filter(|i| m >> i & 1 == 1).map(letter).collect::<BTreeSet<char>>());
+    match v {
+        MCi::Top => CharacterInclusionDomain::Top,
+        MCi::V { certain, possible } => CharacterInclusionDomain::Value((set(certain.unwrap_or(0)), possible.map(set).unwrap_or(CharacterSet::Top))),
+    }
+}
+
+fn ci_model(v: &CharacterInclusionDomain) -> MCi {
+    let mask = |s: &BTreeSet<char>| -> (u8, bool) {
+        let mut m = 0u8;
+        let mut foreign = false;
+        for c in s {
+            if ('a'..='h').contains(c) {
+                m |= 1 << (*c as u8 - b'a');
+            } else {
+                foreign = true;
+            }
+        }
+        (m, foreign)
+    };
+    match v {
+        CharacterInclusionDomain::Top => MCi::Top,
+        CharacterInclusionDomain::Value((c, p)) => {
+            let certain = match c {
+                CharacterSet::Top => None, // every character certain: no finite string
+                CharacterSet::Value(s) => {
+                    let (m, foreign) = mask(s);
+                    if foreign { None } else { Some(m) }
+                }
+            };
+            let possible = match p {
+                CharacterSet::Top => None,
+                CharacterSet::Value(s) => Some(mask(s).0),
+            };
+            MCi::V { certain, possible }
+        }
+    }
+}
+
+/// Does the value describe the strings whose character set is `chars`?
+fn ci_contains(v: &MCi, chars: u8) -> bool {
+    match v {
+        MCi::Top => true,
+        MCi::V { certain, possible } => match certain {
+            None => false,
+            Some(c) => c & !chars == 0 && possible.map(|p| chars & !p == 0).unwrap_or(true),
+        },
+    }
+}
+
+fn ci_show(v: &MCi) -> String {
+    let set = |m: u8| format!("{{{}}}", (0..8).filter(|i| m >> i & 1 == 1).map(|i| letter(i).to_string()).collect::<Vec<_>>().join(""));
+    match v {
+        MCi::Top => "Top".into(),
+        MCi::V { certain, possible } => format!("(certain {}, possible {})", certain.map(set).unwrap_or("<unsatisfiable>".into()), possible.map(set).unwrap_or("Top".into())),
+    }
+}
+
+fn ci_values(letters: usize) -> Vec<MCi> {
+    let mut v = vec![MCi::Top];
+    for p in 0u8..(1 << letters) {
+        for c in 0u8..(1 << letters) {
+            if c & !p == 0 {
+                v.push(MCi::V { certain: Some(c), possible: Some(p) });
+            }
+        }
+    }
+    for c in 0u8..(1 << letters) {
+        v.push(MCi::V { certain: Some(c), possible: None });
+    }
+    v
+}
+
+/// The (character set, length) classes of all strings of length ≤ max_len over `alphabet` letters, with the
+/// number of strings in each class (the strings are really enumerated).
+fn string_classes(alphabet: usize, max_len: usize) -> Vec<(u8, usize, u64)> {
+    let mut count = std::collections::BTreeMap::<(u8, usize), u64>::new();
+    for len in 0..=max_len {
+        let total = (alphabet as u64).pow(len as u32);
+        for mut code in 0..total {
+            let mut m = 0u8;
+            for _ in 0..len {
+                m |= 1 << (code % alphabet as u64);
+                code /= alphabet as u64;
+            }
+            *count.entry((m, len)).or_insert(0) += 1;
+        }
+    }
+    count.into_iter().map(|((m, l), n)| (m, l, n)).collect()
+}
+
+const CI_MAX_LEN: usize = 4;
+
+fn ci_check(op: &str, x: &MCi, y: &MCi, classes: &[(u8, usize, u64)], rep: &mut Report) {
+    rep.eval();
+    let (rx, ry) = (ci_real(x), ci_real(y));
+    let got = if op == "append" { guard(|| rx.append_string_domain(&ry)) } else { guard(|| rx.merge(&ry)) };
+    let case = || json!({"kind": format!("ci-{op}"), "x": rx, "y": ry});
+    let size = (ci_show(x).len() + ci_show(y).len()) as u64;
+    let got = match got {
+        Err(p) => {
+            rep.violation(format!("ci:{op}:panic:{}", panic_site(&p)), None, format!("CharacterInclusionDomain {op}({} ; {}) panicked: {p}", ci_show(x), ci_show(y)), case(), size);
+            return;
+        }
+        Ok(g) => g,
+    };
+    let r = ci_model(&got);
+    let mut judged = 0u64;
+    if op == "append" {
+        'outer: for (ms, ls, ns) in classes.iter().filter(|c| ci_contains(x, c.0)) {
+            for (mt, lt, nt) in classes.iter().filter(|c| ci_contains(y, c.0)) {
+                if ls + lt > CI_MAX_LEN {
+                    continue;
+                }
+                judged += ns * nt;
+                if !ci_contains(&r, ms | mt) {
+                    let (s, t) = (witness_string(*ms, *ls), witness_string(*mt, *lt));
+                    rep.violation(format!("ci:{op}:concatenation-lost"), None, format!("append({} ; {}) = {} does not describe {:?} = {s:?} + {t:?}, a concatenation of members of the operands", ci_show(x), ci_show(y), ci_show(&r), format!("{s}{t}")), case(), size);
+                    break 'outer;
+                }
+            }
+        }
+    } else {
+        for (m, l, n) in classes {
+            let (inx, iny) = (ci_contains(x, *m), ci_contains(y, *m));
+            if inx || iny {
+                judged += n;
+                if !ci_contains(&r, *m) {
+                    rep.violation(format!("ci:{op}:member-lost"), None, format!("merge({} ; {}) = {} does not describe {:?}, a member of the {} operand", ci_show(x), ci_show(y), ci_show(&r), witness_string(*m, *l), if inx { "first" } else { "second" }), case(), size);
+                    break;
+                }
+            }
+        }
+    }
+    rep.obs_n(&format!("ci:{op}:strings-judged"), judged);
+    rep.obs(&format!("ci:{op}:{}", if r == MCi::Top { "top" } else { "value" }));
+    if r != MCi::Top && !(*x == MCi::Top && *y == MCi::Top) && judged > 0 {
+        rep.nontrivial(mix(hash_str(op), hash_str(&format!("{x:?}{y:?}"))));
+    }
+}
+
+/// Some string of length `len` whose character set is exactly `chars` (len ≥ popcount).
+fn witness_string(chars: u8, len: usize) -> String {
+    let ls: Vec<char> = (0..8).filter(|i| chars >> i & 1 == 1).map(letter).collect();
+    let mut s: String = ls.iter().collect();
+    while s.chars().count() < len {
+        s.push(*ls.last().unwrap_or(&'?'));
+    }
+    s
+}
+
+fn ci_task(letters: usize, lo: usize, hi: usize, rep: &mut Report) {
+    let vals = ci_values(letters);
+    let classes = string_classes(letters + 1, CI_MAX_LEN);
+    for x in &vals[lo..hi.min(vals.len())] {
+        for y in &vals {
+            ci_check("append", x, y, &classes, rep);
+            ci_check("merge", x, y, &classes, rep);
+        }
+    }
+    if lo == 0 {
+        rep.exhaustive_parts.push(format!(
+            "CharacterInclusionDomain append/merge on all ordered pairs of the {} values with certain <= possible <= {{{}}} incl. possible=Top and Top, judged on all strings of length <= {CI_MAX_LEN} over {} letters",
+            vals.len(),
+            (0..letters).map(|i| letter(i).to_string()).collect::<Vec<_>>().join(","),
+            letters + 1
+        ));
+    }
+}
+
+// ---------------------------------------------------------------------------
+// run / replay
+
+fn run(cfg: &Cfg) -> Report {
+    let quick = cfg.tier == Tier::Quick;
+    let mut tasks: Vec<Task> = Vec::new();
+    // small enumerated cases first: a defect is then witnessed by a small value
+    let reduced = false;
+    let nb = all_bricks(reduced).len();
+    let step = cfg.tier.pick(4, 3);
+    let mut lo = 0;
+    while lo < nb {
+        tasks.push(Task::EnumLists { reduced, first: lo == 0, lo, hi: lo + step });
+        lo += step;
+    }
+    let mut lo = 0;
+    while lo < nb {
+        tasks.push(Task::EnumBrickPairs { reduced, lo, hi: lo + step });
+        lo += step;
+    }
+    let letters = cfg.tier.pick(3, 4);
+    let nci = ci_values(letters).len();
+    let mut lo = 0;
+    while lo < nci {
+        tasks.push(Task::Ci { letters, lo, hi: lo + 6 });
+        lo += 6;
+    }
+    if !quick {
+        for lo in 0..all_bricks(true).len() {
+            tasks.push(Task::EnumLists3 { lo, hi: lo + 1 });
+        }
+    }
+    for _ in 0..cfg.tier.pick(16, 48) {
+        tasks.push(Task::Api { rounds: 4, per_round: cfg.tier.pick(300, 1500) });
+    }
+    for _ in 0..cfg.tier.pick(192, 768) {
+        tasks.push(Task::Sample { n: cfg.tier.pick(1000, 5000) });
+    }
+    for _ in 0..cfg.tier.pick(32, 192) {
+        tasks.push(Task::Long { n: cfg.tier.pick(300, 1500) });
+    }
+    let mut rep = showcase();
+    // The first task (all 1-brick lists and the first rows of the 2-brick lists) runs alone: if normalisation
+    // diverges on common shapes, the stuck-helper cap is reached here with 3 spinning threads instead of one per core.
+    {
+        let mut rng = Rng::derive(cfg.seed, "c06-first", 0);
+        run_task(&tasks[0], &mut rng, &mut rep);
+    }
+    rep.merge(par_shards(cfg, "c06", tasks.len() - 1, |idx, rng, rep| run_task(&tasks[idx + 1], rng, rep)));
+    confirm_hangs(&mut rep);
+    rep.extra.insert("slowest_terminating_call_us_wall".into(), json!(MAX_CALL_US.load(Ordering::Relaxed)));
+    if let Ok(g) = SLOWEST.lock() {
+        rep.extra.insert("slowest_terminating_call".into(), json!(g.1.chars().take(300).collect::<String>()));
+    }
+    rep.extra.insert("stuck_helper_threads".into(), json!(STUCK_THREADS.load(Ordering::SeqCst)));
+    rep.extra.insert("gamma_bound_N".into(), json!(N));
+    rep
+}
+
+/// A few fixed cases executed like all others and written out completely as samples.
+fn showcase() -> Report {
+    let mut rep = Report::new();
+    let b = |seq: &[&str], min: u32, max: u32| MB::B { seq: seq.iter().map(|s| s.to_string()).collect(), min, max };
+    let a11 = b(&["a"], 1, 1);
+    let cases = vec![
+        // the example of the crate's own unit test
+        Case { op: Op::Normalize, x: MBs::V(vec![a11.clone(), b(&["a", "b"], 2, 3), b(&["a", "b"], 0, 1)]), y: None, origin: "showcase" },
+        // unbounded brick followed by a mandatory one (bounds must saturate)
+        Case { op: Op::Normalize, x: MBs::V(vec![b(&["a"], 0, u32::MAX), a11.clone()]), y: None, origin: "showcase" },
+        // "a"+"a" merged with "a" through the public API
+        Case { op: Op::Merge, x: MBs::V(vec![a11.clone(), a11.clone()]), y: Some(MBs::V(vec![a11.clone()])), origin: "showcase" },
+        Case { op: Op::Widen, x: MBs::V(vec![a11.clone(), b(&["b"], 0, 2), b(&["ab"], 1, 1)]), y: Some(MBs::V(vec![a11.clone(), b(&["ab"], 1, 1)])), origin: "showcase" },
+        Case { op: Op::Append, x: MBs::Top, y: Some(MBs::V(vec![b(&["ab", "ba"], 1, 2)])), origin: "showcase" },
+    ];
+    run_cases(cases, &mut rep, true, true);
+    let classes = string_classes(4, CI_MAX_LEN);
+    let (x, y) = (MCi::V { certain: Some(0b011), possible: Some(0b011) }, MCi::V { certain: Some(0b010), possible: Some(0b110) });
+    ci_check("merge", &x, &y, &classes, &mut rep);
+    let r = guard(|| ci_real(&x).merge(&ci_real(&y))).ok().map(|r| ci_show(&ci_model(&r)));
+    rep.sample(json!({"op": "ci-merge", "x": ci_show(&x), "y": ci_show(&y), "observed_result": r, "judged_on": "all strings of length <= 4 over {a,b,c,d}", "verdict": if rep.violations.is_empty() { "holds" } else { "violated" }}));
+    rep
+}
+
+/// Re-run the kept witness of every non-termination signature with a much larger bound; a call that then
+/// returns was slow, not divergent: the verdict is withdrawn (inconclusive).
+fn confirm_hangs(rep: &mut Report) {
+    let sigs: Vec<String> = rep.violations.keys().filter(|k| k.ends_with(":nontermination")).cloned().collect();
+    for sig in sigs {
+        let case = rep.violations[&sig].case.clone();
+        if let Some(c) = parse_case(&case) {
+            let outs = exec_batch(vec![job_of(&c)], 4 * HANG_CPU_MS, true);
+            match outs.first() {
+                Some(Out::Hang(h)) => {
+                    if let Some(v) = rep.violations.get_mut(&sig) {
+                        v.detail.push_str(&format!(" [confirmed by a second run: {h}]"));
+                    }
+                }
+                _ => {
+                    rep.violations.remove(&sig);
+                    rep.inconclusive("bricks: a call exceeded the watchdog bound but returned when re-run with a larger bound");
+                    rep.note(format!("{sig}: withdrawn, the witness returned within the larger bound"));
+                }
+            }
+        }
+    }
+}
+
+fn parse_case(case: &Value) -> Option<Case> {
+    let op = Op::parse(case["kind"].as_str()?)?;
+    let brick_level = matches!(op, Op::BrickMerge | Op::BrickWiden);
+    let parse = |v: &Value| -> Option<MBs> {
+        if brick_level {
+            let b: BrickDomain = serde_json::from_value(v.clone()).ok()?;
+            Some(MBs::V(vec![model_brick(&b)]))
+        } else {
+            let b: BricksDomain = serde_json::from_value(v.clone()).ok()?;
+            Some(model(&b))
+        }
+    };
+    let x = parse(&case["x"])?;
+    let y = if case["y"].is_null() { None } else { Some(parse(&case["y"])?) };
+    Some(Case { op, x, y, origin: "replay" })
+}
+
+fn replay(_cfg: &Cfg, case: &Value) -> Report {
+    let mut rep = Report::new();
+    let kind = case["kind"].as_str().unwrap_or("");
+    if let Some(op) = kind.strip_prefix("ci-") {
+        let x = serde_json::from_value::<CharacterInclusionDomain>(case["x"].clone());
+        let y = serde_json::from_value::<CharacterInclusionDomain>(case["y"].clone());
+        if let (Ok(x), Ok(y), true) = (x, y, op == "append" || op == "merge") {
+            let classes = string_classes(6, CI_MAX_LEN);
+            ci_check(op, &ci_model(&x), &ci_model(&y), &classes, &mut rep);
+        } else {
+            rep.note("unreadable CI replay case");
+        }
+        return rep;
+    }
+    match parse_case(case) {
+        Some(c) if in_domain(&c) => {
+            run_cases(vec![c], &mut rep, false, false);
+            confirm_hangs(&mut rep);
+        }
+        Some(_) => rep.note("replay case is outside the input domain of the check"),
+        None => rep.note("unknown replay case kind"),
+    }
+    rep
 }
